@@ -12,7 +12,8 @@ from oracle import geom
 
 RULE = ("Enumerated completely: every entry of the Platonic(5), Archimedean(13), Catalan(13), Johnson(92), prism/antiprism(16), "
         "pyramid/dipyramid(6) families and of the 145-entry DOI 10.1126/science.1220869 repository, plus one family-level case "
-        "per family (iteration order, repeated and abandoned iteration, unknown names) and the DOI mapping. Oracle: hand-entered "
+        "per family (iteration order, repeated and abandoned iteration, unknown names), the DOI mapping, and one cross-family case (every "
+        "entry by keyword in one process, then every family asked for the names only other families tabulate). Oracle: hand-entered "
         "textbook (V,E,F); brute-force facets of the raw JSON vertices; volume 1; equal edge lengths and regular faces; "
         "insphere tangency for Catalan solids; cited family entries located by name (or, failing that, by geometry). Non-trivial: "
         "every entry case checked against at least one external fact; distinct = distinct entry.")
@@ -60,6 +61,7 @@ def _cases(tier):
     out.append({"fam": "science", "level": "family"})
     out += [{"fam": "science", "level": "entry", "name": n} for n in raw("science")]
     out.append({"fam": "doi", "level": "family"})
+    out.append({"fam": "all", "level": "cross"})
     return out
 
 
@@ -212,8 +214,45 @@ def _family(case, rec):
         rec.check(list(F.names) == names, "names_unchanged_by_failed_lookups", sig)
 
 
+def _cross(case, rec):
+    """One process, all families in turn: every entry asked for by keyword (`get_shape(name=...)`, the idiom of the
+    ShapeFamily docstring) right after its neighbours, then every family asked for every name that only *other* families
+    tabulate, after those have been built - a family-level or module-level memo keyed by too little would answer."""
+    rec.label("cross_family")
+    rec.nontrivial = True
+    rec.concrete = {"family": "all"}
+    fams = list(COUNTS) + ["science"]
+    tables = {f: raw(f) for f in fams}
+    with warnings.catch_warnings():
+        warnings.simplefilter("ignore")
+        for rnd in range(2):
+            for f in fams:
+                F = _family_obj(f)
+                sig = {"family": f, "level": "cross"}
+                for nm, data in tables[f].items():
+                    sh = call(F.get_shape, name=nm) if rnd == 0 else call(F.get_shape, nm)
+                    V = np.array(data["vertices"], dtype=float)
+                    ok = not isinstance(sh, Raised) and type(sh) is S.ConvexPolyhedron and np.shape(sh.vertices) == V.shape \
+                        and np.array_equal(sh.vertices, V)
+                    if not rec.check(ok, "keyword_call_gives_the_tabulated_entry" if rnd == 0 else "positional_call_after_keyword_calls",
+                                     sig, name=nm, got=repr(sh)[:80]):
+                        break
+        for f in fams:
+            F = _family_obj(f)
+            sig = {"family": f, "level": "cross"}
+            foreign = [nm for g in fams if g != f for nm in tables[g] if nm not in tables[f]]
+            for nm in dict.fromkeys(foreign):
+                r = call(F.get_shape, nm)
+                if not rec.check(isinstance(r, Raised) and r.type == "KeyError", "foreign_name_raises_KeyError", sig, key=nm, got=repr(r)[:80]):
+                    break
+                r = call(F.get_shape, name=nm)
+                if not rec.check(isinstance(r, Raised) and r.type == "KeyError", "foreign_name_by_keyword_raises_KeyError", sig, key=nm,
+                                 got=repr(r)[:80]):
+                    break
+
+
 def _run(case, rec):
-    (_family if case["level"] == "family" else _entry)(case, rec)
+    {"family": _family, "entry": _entry, "cross": _cross}[case["level"]](case, rec)
 
 
 def clauses():
